@@ -72,3 +72,14 @@ claim("C12",
       "by item-level correspondence); the colour-table logic itself is not trusted on the implementation side.",
       "Rocq proof (index-in-filtered-table lemma) + finite reflection on regenerated tables + differential check",
       "DESIGN.md section 6 C12")
+claim("C06",
+      "Theorems (Coq, unbounded): a rendered page is break?/title/subline/heading/column headers/body/footnote/source in "
+      "that order with each block empty exactly when its placement predicate or needs_header says so; the renderer's "
+      "predicate equals the placement rule used on the implementation; one-page documents make first/last/all coincide; "
+      "needs_header = pageby_header || first page; every page break restates exactly the document-start geometry "
+      "(twip of the configured inches). Against the implementation: roles of every parsed item per page (sentinels), "
+      "counts per page vs the placement rule, geometry after each \\page, \\header/\\footer destinations; thorough tier "
+      "enumerates the placement x as_table x strategy x pageby_header product.",
+      "Role classification relies on the sentinel conventions of the generators; twip rounding is exact-rational (ties flagged).",
+      "Rocq proof (structure of render_page, placement predicate) + role-level differential check + exhaustive placement product",
+      "DESIGN.md section 6 C06")
